@@ -87,7 +87,7 @@ CHECKS = {
    level="exploration", design="§3 C05",
    technique="deterministic simulation, twin runs: the same seeded scenario (world, configuration, query packets at the same fake instants) executed once through the owned UDP transport (wire path, inline + replay) and once through Server.ServeMsg (decoded path); per-operation comparison of the decoded replies",
    text="Seeded search over configurations (NSID, cookie secret, blocklist, client rate limit, prefetch, RFC 8198) and packet sequences over a signed hierarchy (answers, aliases, wildcards, NXDOMAIN and names below it, NODATA, empty zones, blocked names, unreachable zones, CHAOS; header bits; EDNS version/size/DO; cookies of 8/24/2 bytes, NSID, keepalive, padding, client subnet, unknown options), with repeats so that later packets are served from what earlier ones cached. Reply i of the wire run must decode to the same message as reply i of the decoded run, including 'no reply'. Sampling, not proof.",
-   note="Letter case of names inside RDATA is normalised like owner case (the wire path compresses them against the client's mixed-case question; a consequence of name compression). Zones are signed with Ed25519 so that both runs carry identical signatures. Packets rejected on the header alone and hosts-file state are not generated. The wire run uses a worker pool large enough never to queue. One open finding (truncation decided differently for mixed-case questions near the size limit) is listed in known_findings.json and recognised narrowly."),
+   note="Letter case of names inside RDATA is normalised like owner case (the wire path compresses them against the client's mixed-case question; a consequence of name compression). Zones are signed with Ed25519 so that both runs carry identical signatures. Packets rejected on the header alone and hosts-file state are not generated. The wire run uses a worker pool large enough never to queue."),
 
  "C06": dict(
    level="exploration", design="§3 C06",
